@@ -141,6 +141,39 @@ Fixpoint check_values (squash : bool) (l : list (Q * Q * Q * Q)) : list bool :=
   | (lo, hi, x, impl) :: r => qclose1 (1 # 100000) (predict_value squash lo hi x) impl :: check_values squash r
   end.
 
+(* ---- torch_layers.create_mlp: the list of layers as a function of net_arch, output_dim, squash_output, with_bias and the
+   numbers of pre / post linear module classes ---- *)
+Inductive layer := LPre (d : Z) | LLinear (i o : Z) (bias : bool) | LPost (d : Z) | LAct | LTanh.
+
+Definition block (npre npost : nat) (i o : Z) (bias : bool) : list layer :=
+  repeat (LPre i) npre ++ [LLinear i o bias] ++ repeat (LPost o) npost ++ [LAct].
+
+(* the loop `for idx in range(len(net_arch) - 1)`: consecutive pairs of hidden sizes *)
+Fixpoint hidden_blocks (npre npost : nat) (bias : bool) (arch : list Z) : list layer :=
+  match arch with
+  | a :: ((b :: _) as rest) => block npre npost a b bias ++ hidden_blocks npre npost bias rest
+  | _ => []
+  end.
+
+Definition mlp_body (input_dim output_dim : Z) (arch : list Z) (bias : bool) (npre npost : nat) : list layer :=
+  (match arch with a0 :: _ => block npre npost input_dim a0 bias | [] => [] end)
+  ++ hidden_blocks npre npost bias arch
+  ++ (if 0 <? output_dim
+      then let last_dim := if 0 <? Z.of_nat (length arch) then last arch 0 else input_dim in
+           repeat (LPre last_dim) npre ++ [LLinear last_dim output_dim bias]
+      else []).
+
+Definition mlp_layers (input_dim output_dim : Z) (arch : list Z) (squash bias : bool) (npre npost : nat) : list layer :=
+  mlp_body input_dim output_dim arch bias npre npost ++ (if squash then [LTanh] else []).
+
+Definition layer_code (l : layer) : Z * Z * Z * bool :=
+  match l with
+  | LPre d => (1, d, 0, false) | LLinear i o b => (2, i, o, b) | LPost d => (3, d, 0, false)
+  | LAct => (4, 0, 0, false) | LTanh => (5, 0, 0, false)
+  end.
+Definition show_mlp (input_dim output_dim : Z) (arch : list Z) (squash bias : bool) (npre npost : nat) :=
+  map layer_code (mlp_layers input_dim output_dim arch squash bias npre npost).
+
 (* correspondence entry point *)
 Definition show_opt (x : option shape) : list Z := match x with Some s => 1 :: s | None => [0] end.
 Definition check_predict (sp : space) (ashape o : shape) : list Z * list Z :=
